@@ -11,6 +11,7 @@ of a repeated hour are two hours).
 from __future__ import annotations
 
 import datetime as dt
+import sys
 
 from pvmon import gen
 from pvmon.common import DAY_US, MAX_US, MIN_US, ORD0, US, fields, inst, off_us, us_to_fields, wall_us
@@ -64,10 +65,36 @@ def _lab_at(z, u, unit, ws):
     return label(unit, f, off, ws)
 
 
+# the week configuration as last given to the public setters (observed by contracts on them, from whatever thread): the
+# oracle follows what week_starts_at()/week_ends_at() were told, not the library's own storage of it
+_CFG = {"ws": 0, "we": 6}
+
+
+def _in_thread(f):
+    """f() evaluated in a fresh thread (the harness waits for it: no concurrency, only another thread's view of the
+    process-wide configuration)"""
+    import threading
+
+    box = []
+
+    def body():
+        try:
+            box.append(("ok", f()))
+        except BaseException as e:  # noqa: BLE001
+            box.append(("raise", e))
+
+    t = threading.Thread(target=body, daemon=True)
+    t.start()
+    t.join()
+    if box[0][0] == "raise":
+        raise box[0][1]
+    return box[0][1]
+
+
 def judge_bound(M, name, x, unit, ret, first):
     P = M.pendulum
-    ws = int(P._WEEK_STARTS_AT)
-    we = int(P._WEEK_ENDS_AT)
+    ws = _CFG["ws"]
+    we = _CFG["we"]
     if unit == "week" and (ws - we) % 7 != 1:
         M.count("inconsistent_week_config_skipped")
         return
@@ -221,6 +248,17 @@ def setup(M):
                     x=repr(x), exc=repr(e)[:120])
         return exc
 
+    _CFG["ws"], _CFG["we"] = int(pendulum._WEEK_STARTS_AT), int(pendulum._WEEK_ENDS_AT)     # initial state only
+
+    def setter(key):
+        def post(ret, a, k, snap):
+            _CFG[key] = int(a[0] if a else k["wday"])
+        return post
+
+    for owner in (pendulum, sys.modules["pendulum.helpers"]):
+        M.contract(owner, "week_starts_at", post=setter("ws"), label=f"{owner.__name__}.week_starts_at")
+        M.contract(owner, "week_ends_at", post=setter("we"), label=f"{owner.__name__}.week_ends_at")
+
     M.contract(DateTime, "start_of", post=mk("dt.start_of", True), exc=raised("dt.start_of"), label="DateTime.start_of")
     M.contract(DateTime, "end_of", post=mk("dt.end_of", False), exc=raised("dt.end_of"), label="DateTime.end_of")
 
@@ -230,8 +268,8 @@ def setup(M):
             unit = a[1] if len(a) > 1 else k.get("unit")
             if isinstance(x, DateTime) or unit not in UNITS[3:]:
                 return
-            ws = int(pendulum._WEEK_STARTS_AT)
-            if unit == "week" and (ws - int(pendulum._WEEK_ENDS_AT)) % 7 != 1:
+            ws = _CFG["ws"]
+            if unit == "week" and (ws - _CFG["we"]) % 7 != 1:
                 return
             bad = []
             if type(ret) is not type(x):
@@ -405,6 +443,8 @@ def run(M, c):
             for unit in UNITS[3:]:
                 M.cls("date", unit, wk)
                 try:
+                    if c["u"] % 4 == 0:
+                        _in_thread(lambda: (x.start_of(unit), x.end_of(unit)))      # noqa: B023
                     x.start_of(unit)
                     x.end_of(unit)
                 except (OverflowError, ValueError):
@@ -419,12 +459,18 @@ def run(M, c):
             xs = [("fixed", P.DateTime(*us_to_fields(c["u"] + off * US), tzinfo=ftz))]
         else:
             xs = _provenances(M, c["z"], c["u"])
+        if c["u"] % 4 == 0:
+            # the same value asked from another thread than the one that configured the week
+            xs = xs + [("thread", xs[0][1])]
         for unit in c["units"]:
             res = []
             for prov, x in xs:
                 try:
-                    s = x.start_of(unit)        # contracts judge
-                    e = x.end_of(unit)
+                    if prov == "thread":
+                        s, e = _in_thread(lambda: (x.start_of(unit), x.end_of(unit)))      # noqa: B023
+                    else:
+                        s = x.start_of(unit)        # contracts judge
+                        e = x.end_of(unit)
                 except (OverflowError, ValueError):
                     M.count("out_of_range")
                     continue
